@@ -597,24 +597,116 @@ theorem complete_aux (rules : List Term) (inp : Str)
 
 /-! ### positions -/
 
-theorem prim_mono {inp : Str} {pos q : Nat} {v : Val} {p : Prim} (h : p.run inp pos = some (q, v)) : pos ≤ q := by
-  cases p <;> simp only [Prim.run] at h
-  · split at h <;> simp at h; omega
-  · split at h <;> simp at h; omega
-  · split at h
-    · split at h <;> simp at h; omega
-    · simp at h
-  · split at h <;> simp at h; omega
-  · split at h <;> simp at h; omega
-  · split at h <;> simp at h; omega
+/-- `b` is reached from `a` by moving forward inside the input (or not moving at all) -/
+def Bnd (L a b : Nat) : Prop := a ≤ b ∧ (b = a ∨ b ≤ L)
+/-- … and really forward when `c` holds -/
+def Adv (L : Nat) (c : Bool) (a b : Nat) : Prop := Bnd L a b ∧ (c = true → a < b)
 
-/-- no parser ever moves backwards -/
-theorem pos_mono_all (rules : List Term) (inp : Str) : ∀ f,
-    (∀ t pos σ p v σ', run rules inp f t pos σ = (.ok p v, σ') → pos ≤ p) ∧
-    (∀ ts pos σ p vs σ', runSeq rules inp f ts pos σ = (.ok p vs, σ') → pos ≤ p) ∧
-    (∀ ts pos σ p v σ', runChoice rules inp f ts pos σ = (.ok p v, σ') → pos ≤ p) ∧
-    (∀ t pos σ p vs σ', runMany rules inp f t pos σ = (.ok p vs, σ') → pos ≤ p) ∧
-    (∀ t pr pos σ p vs σ', runUntil rules inp f t pr pos σ = (.ok p vs, σ') → pos ≤ p) := by
+theorem Bnd.refl (L a : Nat) : Bnd L a a := ⟨Nat.le_refl _, Or.inl rfl⟩
+theorem Bnd.trans {L a b c : Nat} (h1 : Bnd L a b) (h2 : Bnd L b c) : Bnd L a c := by
+  unfold Bnd at *; omega
+theorem Adv.refl (L a : Nat) : Adv L false a a := ⟨Bnd.refl L a, by simp⟩
+theorem Adv.seq {L a b c : Nat} {c1 c2 : Bool} (h1 : Adv L c1 a b) (h2 : Adv L c2 b c) : Adv L (c1 || c2) a c := by
+  refine ⟨Bnd.trans h1.1 h2.1, fun hc => ?_⟩
+  have := h1.1.1; have := h2.1.1
+  rcases Bool.or_eq_true _ _ ▸ hc with hc | hc
+  · have := h1.2 hc; omega
+  · have := h2.2 hc; omega
+theorem Adv.weaken {L a b : Nat} {c c' : Bool} (h : Adv L c a b) (hc : c' = true → c = true) : Adv L c' a b :=
+  ⟨h.1, fun h' => h.2 (hc h')⟩
+theorem Adv.toFalse {L a b : Nat} {c : Bool} (h : Adv L c a b) : Adv L false a b := h.weaken (by simp)
+
+theorem scanString_le_aux (cs es : Str) : ∀ (n : Nat) (l : Str), l.length ≤ n →
+    (scanString cs es l).1 ≤ l.length ∧ (scanString cs es l).2.length ≤ (scanString cs es l).1 := by
+  intro n
+  induction n with
+  | zero => intro l hl; cases l <;> simp_all [scanString]
+  | succ n ih =>
+    intro l hl
+    match l with
+    | [] => simp [scanString]
+    | [c] => simp only [scanString]; split <;> simp
+    | c :: d :: rest =>
+      simp only [scanString]
+      have h1 := ih rest (by simp at hl; omega)
+      have h2 := ih (d :: rest) (by simp at hl; omega)
+      split
+      · simp; omega
+      · split
+        · simp at h2 ⊢; omega
+        · simp
+
+theorem scanString_le (cs es : Str) (l : Str) :
+    (scanString cs es l).1 ≤ l.length ∧ (scanString cs es l).2.length ≤ (scanString cs es l).1 :=
+  scanString_le_aux cs es l.length l (Nat.le_refl _)
+
+theorem matchLit_len (ic : Bool) (cs l txt : Str) (h : matchLit ic cs l = some txt) : cs.length ≤ l.length := by
+  induction cs generalizing l txt with
+  | nil => simp
+  | cons c cs ih =>
+    cases l with
+    | nil => simp [matchLit] at h
+    | cons d ds =>
+      simp only [matchLit] at h
+      by_cases hc : (if ic = true then lowerAscii d else d) = c
+      · rw [if_pos hc] at h
+        cases hm : matchLit ic cs ds with
+        | none => simp [hm] at h
+        | some t => have := ih ds t hm; simp; omega
+      · rw [if_neg hc] at h; simp at h
+
+theorem prim_adv {inp : Str} {pos q : Nat} {v : Val} {p : Prim} (h : p.run inp pos = some (q, v)) :
+    Adv inp.length p.consuming pos q := by
+  cases p with
+  | anyChar =>
+    simp only [Prim.run] at h
+    split at h
+    · rename_i c hc; have := (List.getElem?_eq_some_iff.mp hc).1; simp at h; unfold Adv Bnd; simp [Prim.consuming]; omega
+    · simp at h
+  | char c =>
+    simp only [Prim.run] at h
+    split at h
+    · rename_i hc; have := (List.getElem?_eq_some_iff.mp hc).1; simp at h; unfold Adv Bnd; simp [Prim.consuming]; omega
+    · simp at h
+  | inSet cs =>
+    simp only [Prim.run] at h
+    split at h
+    · rename_i c hc; have := (List.getElem?_eq_some_iff.mp hc).1
+      split at h
+      · simp at h; unfold Adv Bnd; simp [Prim.consuming]; omega
+      · simp at h
+    · simp at h
+  | string cs es m =>
+    simp only [Prim.run] at h
+    have := scanString_le cs es (inp.drop pos)
+    split at h
+    · simp at h
+    · simp at h; simp [List.length_drop] at this; unfold Adv Bnd; simp [Prim.consuming]; omega
+  | literal cs value ic =>
+    simp only [Prim.run] at h
+    split at h
+    · rename_i txt hm
+      have := matchLit_len ic cs _ txt hm
+      simp at h; simp [List.length_drop] at this; unfold Adv Bnd; simp [Prim.consuming]
+      cases cs with
+      | nil => simp; omega
+      | cons c cs => simp at *; omega
+    · simp at h
+  | eof =>
+    simp only [Prim.run] at h
+    split at h
+    · simp at h
+    · simp at h; unfold Adv Bnd; simp [Prim.consuming]; omega
+
+/-- Positions: every successful parser moves forward inside the input, strictly forward when the
+term is syntactically consuming. -/
+theorem adv_all (rules : List Term) (inp : Str) : ∀ f,
+    (∀ t pos σ p v σ', run rules inp f t pos σ = (.ok p v, σ') → Adv inp.length t.consuming pos p) ∧
+    (∀ ts pos σ p vs σ', runSeq rules inp f ts pos σ = (.ok p vs, σ') → Adv inp.length (Term.consumingAny ts) pos p) ∧
+    (∀ ts pos σ p v σ', runChoice rules inp f ts pos σ = (.ok p v, σ') → Adv inp.length (Term.consumingAll ts) pos p) ∧
+    (∀ t pos σ p vs σ', runMany rules inp f t pos σ = (.ok p vs, σ') →
+        Bnd inp.length pos p ∧ (t.consuming = true → 1 ≤ vs.length → pos < p)) ∧
+    (∀ t pr pos σ p vs σ', runUntil rules inp f t pr pos σ = (.ok p vs, σ') → Bnd inp.length pos p) := by
   intro f
   induction f with
   | zero => refine ⟨?_, ?_, ?_, ?_, ?_⟩ <;> intros <;> simp_all [run, runSeq, runChoice, runMany, runUntil]
@@ -631,7 +723,7 @@ theorem pos_mono_all (rules : List Term) (inp : Str) : ∀ f,
         simp only [run, hσ, Bool.false_eq_true, ↓reduceIte] at h
         cases hp : pr.run inp pos with
         | none => rw [hp] at h; cases h
-        | some qv => obtain ⟨q, w⟩ := qv; rw [hp] at h; cases h; exact prim_mono hp
+        | some qv => obtain ⟨q, w⟩ := qv; rw [hp] at h; cases h; exact prim_adv hp
       | seq ts =>
         simp only [run, hσ, Bool.false_eq_true, ↓reduceIte] at h
         rcases hs : runSeq rules inp f ts pos σ with ⟨_ | _ | _, σ1⟩ <;> rw [hs] at h <;> simp only [LRes.toRes] at h <;> cases h
@@ -643,45 +735,48 @@ theorem pos_mono_all (rules : List Term) (inp : Str) : ∀ f,
         simp only [run, hσ, Bool.false_eq_true, ↓reduceIte] at h
         rcases hm : runMany rules inp f t pos σ with ⟨_ | _ | _, σ1⟩ <;> rw [hm] at h <;> simp only [LRes.toRes] at h
         · split at h <;> cases h
-          exact ihM _ _ _ _ _ _ hm
+          have := ihM _ _ _ _ _ _ hm
+          refine ⟨this.1, fun hc => ?_⟩
+          simp only [Term.consuming, Bool.and_eq_true, decide_eq_true_eq] at hc
+          exact this.2 hc.2 (by omega)
         all_goals cases h
       | «until» t pr =>
         simp only [run, hσ, Bool.false_eq_true, ↓reduceIte] at h
         rcases hs : runUntil rules inp f t pr pos σ with ⟨_ | _ | _, σ1⟩ <;> rw [hs] at h <;> simp only [LRes.toRes] at h <;> cases h
-        exact ihU _ _ _ _ _ _ _ hs
+        exact ⟨ihU _ _ _ _ _ _ _ hs, by simp [Term.consuming]⟩
       | opt t d =>
         simp only [run, hσ, Bool.false_eq_true, ↓reduceIte] at h
         rcases ha : run rules inp f t pos σ with ⟨_ | _ | _, σ1⟩ <;> rw [ha] at h <;> simp only at h <;> cases h
-        · exact ihR _ _ _ _ _ _ ha
-        · exact Nat.le_refl _
+        · exact (ihR _ _ _ _ _ _ ha).toFalse
+        · exact Adv.refl _ _
       | followedBy a b =>
         simp only [run, hσ, Bool.false_eq_true, ↓reduceIte] at h
         rcases ha : run rules inp f a pos σ with ⟨_ | _ | _, σ1⟩ <;> rw [ha] at h <;> simp only at h
         · rcases hb : run rules inp f b _ σ1 with ⟨_ | _ | _, σ2⟩ <;> rw [hb] at h <;> simp only at h <;> cases h
-          exact ihR _ _ _ _ _ _ ha
+          simpa only [Term.consuming] using ihR _ _ _ _ _ _ ha
         all_goals cases h
       | notFollowedBy a b =>
         simp only [run, hσ, Bool.false_eq_true, ↓reduceIte] at h
         rcases ha : run rules inp f a pos σ with ⟨_ | _ | _, σ1⟩ <;> rw [ha] at h <;> simp only at h
         · rcases hb : run rules inp f b _ σ1 with ⟨_ | _ | _, σ2⟩ <;> rw [hb] at h <;> simp only at h <;> cases h
-          exact ihR _ _ _ _ _ _ ha
+          simpa only [Term.consuming] using ihR _ _ _ _ _ _ ha
         all_goals cases h
       | keepLeft a b =>
         simp only [run, hσ, Bool.false_eq_true, ↓reduceIte] at h
         rcases ha : run rules inp f a pos σ with ⟨_ | _ | _, σ1⟩ <;> rw [ha] at h <;> simp only at h
         · rcases hb : run rules inp f b _ σ1 with ⟨_ | _ | _, σ2⟩ <;> rw [hb] at h <;> simp only at h <;> cases h
-          exact Nat.le_trans (ihR _ _ _ _ _ _ ha) (ihR _ _ _ _ _ _ hb)
+          exact Adv.seq (ihR _ _ _ _ _ _ ha) (ihR _ _ _ _ _ _ hb)
         all_goals cases h
       | keepRight a b =>
         simp only [run, hσ, Bool.false_eq_true, ↓reduceIte] at h
         rcases ha : run rules inp f a pos σ with ⟨_ | _ | _, σ1⟩ <;> rw [ha] at h <;> simp only at h
-        · exact Nat.le_trans (ihR _ _ _ _ _ _ ha) (ihR _ _ _ _ _ _ h)
+        · exact Adv.seq (ihR _ _ _ _ _ _ ha) (ihR _ _ _ _ _ _ h)
         all_goals cases h
       | map t fn =>
         simp only [run, hσ, Bool.false_eq_true, ↓reduceIte] at h
         rcases ha : run rules inp f t pos σ with ⟨_ | _ | _, σ1⟩ <;> rw [ha] at h <;> simp only at h
         · split at h <;> cases h
-          exact ihR _ _ _ _ _ _ ha
+          simpa only [Term.consuming] using ihR _ _ _ _ _ _ ha
         all_goals cases h
       | lift fn ts =>
         simp only [run, hσ, Bool.false_eq_true, ↓reduceIte] at h
@@ -691,32 +786,32 @@ theorem pos_mono_all (rules : List Term) (inp : Str) : ∀ f,
         all_goals cases h
       | wrapper t =>
         simp only [run, hσ, Bool.false_eq_true, ↓reduceIte] at h
-        exact ihR _ _ _ _ _ _ h
+        simpa only [Term.consuming] using ihR _ _ _ _ _ _ h
       | ref i =>
         simp only [run, hσ, Bool.false_eq_true, ↓reduceIte] at h
         cases hi : rules[i]? with
         | none => rw [hi] at h; cases h
-        | some t => rw [hi] at h; exact ihR _ _ _ _ _ _ h
+        | some t => rw [hi] at h; exact (ihR _ _ _ _ _ _ h).toFalse
       | startTag t =>
         simp only [run, hσ, Bool.false_eq_true, ↓reduceIte] at h
         rcases ha : run rules inp f t pos σ with ⟨_ | _ | _, σ1⟩ <;> rw [ha] at h <;> simp only at h <;> cases h
-        exact ihR _ _ _ _ _ _ ha
+        simpa only [Term.consuming] using ihR _ _ _ _ _ _ ha
       | endTag t ic =>
         simp only [run, hσ, Bool.false_eq_true, ↓reduceIte] at h
         rcases ha : run rules inp f t pos σ with ⟨_ | _ | _, σ1⟩ <;> rw [ha] at h <;> simp only at h
         · split at h
           · cases h
           · split at h <;> cases h
-            exact ihR _ _ _ _ _ _ ha
+            simpa only [Term.consuming] using ihR _ _ _ _ _ _ ha
         all_goals cases h
     · intro ts pos σ p vs σ' h
       cases ts with
-      | nil => simp only [runSeq] at h; cases h; exact Nat.le_refl _
+      | nil => simp only [runSeq] at h; cases h; exact Adv.refl _ _
       | cons t ts =>
         simp only [runSeq] at h
         rcases ha : run rules inp f t pos σ with ⟨_ | _ | _, σ1⟩ <;> rw [ha] at h <;> simp only at h
         · rcases hb : runSeq rules inp f ts _ σ1 with ⟨_ | _ | _, σ2⟩ <;> rw [hb] at h <;> simp only at h <;> cases h
-          exact Nat.le_trans (ihR _ _ _ _ _ _ ha) (ihS _ _ _ _ _ _ hb)
+          exact Adv.seq (ihR _ _ _ _ _ _ ha) (ihS _ _ _ _ _ _ hb)
         all_goals cases h
     · intro ts pos σ p v σ' h
       cases ts with
@@ -724,24 +819,449 @@ theorem pos_mono_all (rules : List Term) (inp : Str) : ∀ f,
       | cons t ts =>
         simp only [runChoice] at h
         rcases ha : run rules inp f t pos σ with ⟨_ | _ | _, σ1⟩ <;> rw [ha] at h <;> simp only at h
-        · cases h; exact ihR _ _ _ _ _ _ ha
-        · exact ihC _ _ _ _ _ _ h
+        · cases h; exact (ihR _ _ _ _ _ _ ha).weaken (by simp [Term.consumingAll]; intro a _; exact a)
+        · exact (ihC _ _ _ _ _ _ h).weaken (by simp [Term.consumingAll])
         · cases h
     · intro t pos σ p vs σ' h
       simp only [runMany] at h
       rcases ha : run rules inp f t pos σ with ⟨_ | _ | _, σ1⟩ <;> rw [ha] at h <;> simp only at h
       · rcases hb : runMany rules inp f t _ σ1 with ⟨_ | _ | _, σ2⟩ <;> rw [hb] at h <;> simp only at h <;> cases h
-        exact Nat.le_trans (ihR _ _ _ _ _ _ ha) (ihM _ _ _ _ _ _ hb)
-      · cases h; exact Nat.le_refl _
+        have h1 := ihR _ _ _ _ _ _ ha
+        have h2 := ihM _ _ _ _ _ _ hb
+        refine ⟨Bnd.trans h1.1 h2.1, fun hc _ => ?_⟩
+        have := h1.2 hc; have := h2.1.1; omega
+      · cases h; exact ⟨Bnd.refl _ _, by simp⟩
       · cases h
     · intro t pr pos σ p vs σ' h
       simp only [runUntil] at h
       rcases hp : run rules inp f pr pos σ with ⟨_ | _ | _, σ1⟩ <;> rw [hp] at h <;> simp only at h
-      · cases h; exact Nat.le_refl _
+      · cases h; exact Bnd.refl _ _
       · rcases ha : run rules inp f t pos σ1 with ⟨_ | _ | _, σ2⟩ <;> rw [ha] at h <;> simp only at h
         · rcases hb : runUntil rules inp f t pr _ σ2 with ⟨_ | _ | _, σ3⟩ <;> rw [hb] at h <;> simp only at h <;> cases h
-          exact Nat.le_trans (ihR _ _ _ _ _ _ ha) (ihU _ _ _ _ _ _ _ hb)
-        · cases h; exact Nat.le_refl _
+          exact Bnd.trans (ihR _ _ _ _ _ _ ha).1 (ihU _ _ _ _ _ _ _ hb)
+        · cases h; exact Bnd.refl _ _
         · cases h
       · cases h
+
+/-! ### termination: a fuel computed from the grammar and the remaining input suffices -/
+
+/-- fuel `k` suffices for every Forward at the positions the mode allows: not more input left
+(`g = true`) / strictly less input left (`g = false`) than at `pos` -/
+def RefOK (rules : List Term) (inp : Str) (k : Nat) (g : Bool) (pos : Nat) : Prop :=
+  ∀ (i pos' : Nat) (σ : St) (f : Nat),
+    (if g = true then inp.length - pos' ≤ inp.length - pos else inp.length - pos' < inp.length - pos) →
+    k ≤ f → (run rules inp f (.ref i) pos' σ).1 ≠ .diverge
+
+theorem RefOK.step {rules : List Term} {inp : Str} {k : Nat} {g c : Bool} {pos p : Nat}
+    (h : RefOK rules inp k g pos) (ha : Adv inp.length c pos p) : RefOK rules inp k (g || c) p := by
+  intro i pos' σ f hc hk
+  apply h i pos' σ f ?_ hk
+  obtain ⟨⟨h1, h2⟩, h3⟩ := ha
+  cases g <;> cases c <;> simp at hc h3 ⊢ <;> omega
+
+/-- the `while True` loop of Many terminates: every iteration but the last consumes -/
+theorem many_nd (rules : List Term) (inp : Str) (k n : Nat) (t : Term) (hc : t.consuming = true)
+    (H : ∀ (g : Bool) (pos : Nat) (σ : St) (f : Nat), t.wf g = true → RefOK rules inp k g pos → inp.length - pos ≤ n →
+      t.cost k n ≤ f → (run rules inp f t pos σ).1 ≠ .diverge) (hwt : t.wf true = true) :
+    ∀ (j : Nat) (g : Bool) (pos : Nat) (σ : St) (f : Nat), t.wf g = true → RefOK rules inp k g pos →
+      inp.length - pos ≤ j → j ≤ n → j + 1 + t.cost k n ≤ f → (runMany rules inp f t pos σ).1 ≠ .diverge := by
+  intro j
+  induction j with
+  | zero =>
+    intro g pos σ f hwg href hj hjn hf
+    obtain ⟨f, rfl⟩ : ∃ f', f = f' + 1 := ⟨f - 1, by omega⟩
+    simp only [runMany]
+    have h := H g pos σ f hwg href (by omega) (by omega)
+    cases hr : run rules inp f t pos σ with
+    | mk r σ1 =>
+      rw [hr] at h
+      cases r with
+      | ok p v =>
+        have hadv := (adv_all rules inp f).1 _ _ _ _ _ _ hr
+        have := hadv.2 hc; have := hadv.1.2; omega
+      | fail => simp
+      | diverge => exact absurd rfl h
+  | succ j ih =>
+    intro g pos σ f hwg href hj hjn hf
+    obtain ⟨f, rfl⟩ : ∃ f', f = f' + 1 := ⟨f - 1, by omega⟩
+    simp only [runMany]
+    have h := H g pos σ f hwg href (by omega) (by omega)
+    cases hr : run rules inp f t pos σ with
+    | mk r σ1 =>
+      rw [hr] at h
+      cases r with
+      | ok p v =>
+        have hadv := (adv_all rules inp f).1 _ _ _ _ _ _ hr
+        have h1 := hadv.2 hc; have h2 := hadv.1.2
+        have href' : RefOK rules inp k true p := by simpa using href.step (hadv.weaken (c' := true) (fun _ => hc))
+        have h3 := ih true p σ1 f hwt href' (by omega) (by omega) (by omega)
+        simp only []
+        revert h3
+        cases runMany rules inp f t p σ1 with
+        | mk lr σ2 => cases lr <;> simp
+      | fail => simp
+      | diverge => exact absurd rfl h
+
+/-- the `while True` loop of Until terminates -/
+theorem until_nd (rules : List Term) (inp : Str) (k n : Nat) (t pr : Term) (hc : t.consuming = true)
+    (H : ∀ (g : Bool) (pos : Nat) (σ : St) (f : Nat), t.wf g = true → RefOK rules inp k g pos → inp.length - pos ≤ n →
+      t.cost k n ≤ f → (run rules inp f t pos σ).1 ≠ .diverge)
+    (Hp : ∀ (g : Bool) (pos : Nat) (σ : St) (f : Nat), pr.wf g = true → RefOK rules inp k g pos → inp.length - pos ≤ n →
+      pr.cost k n ≤ f → (run rules inp f pr pos σ).1 ≠ .diverge)
+    (hwt : t.wf true = true) (hwp : pr.wf true = true) :
+    ∀ (j : Nat) (g : Bool) (pos : Nat) (σ : St) (f : Nat), t.wf g = true → pr.wf g = true → RefOK rules inp k g pos →
+      inp.length - pos ≤ j → j ≤ n → j + 1 + t.cost k n + pr.cost k n ≤ f →
+      (runUntil rules inp f t pr pos σ).1 ≠ .diverge := by
+  intro j
+  induction j with
+  | zero =>
+    intro g pos σ f hwg hwpg href hj hjn hf
+    obtain ⟨f, rfl⟩ : ∃ f', f = f' + 1 := ⟨f - 1, by omega⟩
+    simp only [runUntil]
+    have hp := Hp g pos σ f hwpg href (by omega) (by omega)
+    cases hrp : run rules inp f pr pos σ with
+    | mk rp σ0 =>
+      rw [hrp] at hp
+      cases rp with
+      | ok _ _ => simp
+      | diverge => exact absurd rfl hp
+      | fail =>
+        simp only []
+        have h := H g pos σ0 f hwg href (by omega) (by omega)
+        cases hr : run rules inp f t pos σ0 with
+        | mk r σ1 =>
+          rw [hr] at h
+          cases r with
+          | ok p v =>
+            have hadv := (adv_all rules inp f).1 _ _ _ _ _ _ hr
+            have := hadv.2 hc; have := hadv.1.2; omega
+          | fail => simp
+          | diverge => exact absurd rfl h
+  | succ j ih =>
+    intro g pos σ f hwg hwpg href hj hjn hf
+    obtain ⟨f, rfl⟩ : ∃ f', f = f' + 1 := ⟨f - 1, by omega⟩
+    simp only [runUntil]
+    have hp := Hp g pos σ f hwpg href (by omega) (by omega)
+    cases hrp : run rules inp f pr pos σ with
+    | mk rp σ0 =>
+      rw [hrp] at hp
+      cases rp with
+      | ok _ _ => simp
+      | diverge => exact absurd rfl hp
+      | fail =>
+        simp only []
+        have h := H g pos σ0 f hwg href (by omega) (by omega)
+        cases hr : run rules inp f t pos σ0 with
+        | mk r σ1 =>
+          rw [hr] at h
+          cases r with
+          | ok p v =>
+            have hadv := (adv_all rules inp f).1 _ _ _ _ _ _ hr
+            have h1 := hadv.2 hc; have h2 := hadv.1.2
+            have href' : RefOK rules inp k true p := by simpa using href.step (hadv.weaken (c' := true) (fun _ => hc))
+            have h3 := ih true p σ1 f hwt hwp href' (by omega) (by omega) (by omega)
+            simp only []
+            revert h3
+            cases runUntil rules inp f t pr p σ1 with
+            | mk lr σ2 => cases lr <;> simp
+          | fail => simp
+          | diverge => exact absurd rfl h
+
+theorem Term.size_pos (t : Term) : 1 ≤ t.size := by cases t <;> simp only [Term.size] <;> omega
+
+set_option hygiene false in
+macro "nd_pre" : tactic => `(tactic| (
+  simp only [Term.size] at hs
+  simp only [Term.cost] at hf
+  simp only [Term.wf, Bool.and_eq_true] at hwf
+  obtain ⟨f, rfl⟩ : ∃ f', f = f' + 1 := ⟨f - 1, by omega⟩
+  simp only [run]
+  split
+  · simp))
+
+/-- Main lemma, by induction on the size of the term: with `k` sufficient for the Forwards that
+can be reached, `cost k n t` suffices for `t`. -/
+theorem nd_all (rules : List Term) (inp : Str) (k n : Nat) : ∀ s,
+    (∀ t : Term, t.size ≤ s → ∀ (g : Bool) (pos : Nat) (σ : St) (f : Nat), t.wf g = true → RefOK rules inp k g pos →
+        inp.length - pos ≤ n → t.cost k n ≤ f → (run rules inp f t pos σ).1 ≠ .diverge) ∧
+    (∀ ts : List Term, Term.sizeL ts ≤ s → ∀ (g : Bool) (pos : Nat) (σ : St) (f : Nat), Term.wfSeq g ts = true →
+        RefOK rules inp k g pos → inp.length - pos ≤ n → Term.costL k n ts ≤ f →
+        (runSeq rules inp f ts pos σ).1 ≠ .diverge) ∧
+    (∀ ts : List Term, Term.sizeL ts ≤ s → ∀ (g : Bool) (pos : Nat) (σ : St) (f : Nat), Term.wfAll g ts = true →
+        RefOK rules inp k g pos → inp.length - pos ≤ n → Term.costL k n ts ≤ f →
+        (runChoice rules inp f ts pos σ).1 ≠ .diverge) := by
+  intro s
+  induction s with
+  | zero =>
+    refine ⟨?_, ?_, ?_⟩
+    · intro t hs; have := t.size_pos; omega
+    · intro ts hs g pos σ f _ _ _ hf
+      cases ts with
+      | nil =>
+        simp only [Term.costL] at hf
+        obtain ⟨f, rfl⟩ : ∃ f', f = f' + 1 := ⟨f - 1, by omega⟩
+        simp [runSeq]
+      | cons t ts => simp only [Term.sizeL] at hs; omega
+    · intro ts hs g pos σ f _ _ _ hf
+      cases ts with
+      | nil =>
+        simp only [Term.costL] at hf
+        obtain ⟨f, rfl⟩ : ∃ f', f = f' + 1 := ⟨f - 1, by omega⟩
+        simp [runChoice]
+      | cons t ts => simp only [Term.sizeL] at hs; omega
+  | succ s ih =>
+    obtain ⟨ihR, ihS, ihC⟩ := ih
+    refine ⟨?_, ?_, ?_⟩
+    · intro t hs g pos σ f hwf href hn hf
+      cases t with
+      | prim p => nd_pre; split <;> simp
+      | seq ts =>
+        nd_pre
+        have h := ihS ts (by omega) g pos σ f hwf href hn (by omega)
+        revert h
+        cases runSeq rules inp f ts pos σ with
+        | mk lr σ1 => cases lr <;> simp [LRes.toRes]
+      | choice ts =>
+        nd_pre
+        exact ihC ts (by omega) g pos σ f hwf href hn (by omega)
+      | many t lower =>
+        nd_pre
+        have h := many_nd rules inp k n t hwf.1.1 (ihR t (by omega)) hwf.2 n g pos σ f hwf.1.2 href hn (Nat.le_refl _) (by omega)
+        revert h
+        cases runMany rules inp f t pos σ with
+        | mk lr σ1 =>
+          cases lr with
+          | ok p vs => intro _; simp only []; split <;> simp
+          | fail => simp [LRes.toRes]
+          | diverge => simp
+      | «until» t pr =>
+        nd_pre
+        have h := until_nd rules inp k n t pr hwf.1.1.1.1 (ihR t (by omega)) (ihR pr (by omega)) hwf.1.1.2 hwf.2
+          n g pos σ f hwf.1.1.1.2 hwf.1.2 href hn (Nat.le_refl _) (by omega)
+        revert h
+        cases runUntil rules inp f t pr pos σ with
+        | mk lr σ1 => cases lr <;> simp [LRes.toRes]
+      | opt t d =>
+        nd_pre
+        have h := ihR t (by omega) g pos σ f hwf href hn (by omega)
+        revert h
+        cases run rules inp f t pos σ with
+        | mk r σ1 => cases r <;> simp
+      | followedBy a b =>
+        nd_pre
+        have ha := ihR a (by omega) g pos σ f hwf.1 href hn (by omega)
+        cases hr : run rules inp f a pos σ with
+        | mk r σ1 =>
+          rw [hr] at ha
+          cases r with
+          | ok p v =>
+            have hadv := (adv_all rules inp f).1 _ _ _ _ _ _ hr
+            have hb := ihR b (by omega) (g || a.consuming) p σ1 f hwf.2 (href.step hadv) (by have := hadv.1.1; omega) (by omega)
+            simp only []
+            revert hb
+            cases run rules inp f b p σ1 with
+            | mk r2 σ2 => cases r2 <;> simp
+          | fail => simp
+          | diverge => exact absurd rfl ha
+      | notFollowedBy a b =>
+        nd_pre
+        have ha := ihR a (by omega) g pos σ f hwf.1 href hn (by omega)
+        cases hr : run rules inp f a pos σ with
+        | mk r σ1 =>
+          rw [hr] at ha
+          cases r with
+          | ok p v =>
+            have hadv := (adv_all rules inp f).1 _ _ _ _ _ _ hr
+            have hb := ihR b (by omega) (g || a.consuming) p σ1 f hwf.2 (href.step hadv) (by have := hadv.1.1; omega) (by omega)
+            simp only []
+            revert hb
+            cases run rules inp f b p σ1 with
+            | mk r2 σ2 => cases r2 <;> simp
+          | fail => simp
+          | diverge => exact absurd rfl ha
+      | keepLeft a b =>
+        nd_pre
+        have ha := ihR a (by omega) g pos σ f hwf.1 href hn (by omega)
+        cases hr : run rules inp f a pos σ with
+        | mk r σ1 =>
+          rw [hr] at ha
+          cases r with
+          | ok p v =>
+            have hadv := (adv_all rules inp f).1 _ _ _ _ _ _ hr
+            have hb := ihR b (by omega) (g || a.consuming) p σ1 f hwf.2 (href.step hadv) (by have := hadv.1.1; omega) (by omega)
+            simp only []
+            revert hb
+            cases run rules inp f b p σ1 with
+            | mk r2 σ2 => cases r2 <;> simp
+          | fail => simp
+          | diverge => exact absurd rfl ha
+      | keepRight a b =>
+        nd_pre
+        have ha := ihR a (by omega) g pos σ f hwf.1 href hn (by omega)
+        cases hr : run rules inp f a pos σ with
+        | mk r σ1 =>
+          rw [hr] at ha
+          cases r with
+          | ok p v =>
+            have hadv := (adv_all rules inp f).1 _ _ _ _ _ _ hr
+            exact ihR b (by omega) (g || a.consuming) p σ1 f hwf.2 (href.step hadv) (by have := hadv.1.1; omega) (by omega)
+          | fail => simp
+          | diverge => exact absurd rfl ha
+      | map t fn =>
+        nd_pre
+        have h := ihR t (by omega) g pos σ f hwf href hn (by omega)
+        revert h
+        cases run rules inp f t pos σ with
+        | mk r σ1 =>
+          cases r with
+          | ok p v => intro _; simp only []; split <;> simp
+          | fail => simp
+          | diverge => simp
+      | lift fn ts =>
+        nd_pre
+        have h := ihS ts (by omega) g pos σ f hwf href hn (by omega)
+        revert h
+        cases runSeq rules inp f ts pos σ with
+        | mk lr σ1 =>
+          cases lr with
+          | ok p vs => intro _; simp only []; split <;> simp
+          | fail => simp [LRes.toRes]
+          | diverge => simp
+      | wrapper t =>
+        nd_pre
+        exact ihR t (by omega) g pos σ f hwf href hn (by omega)
+      | ref i =>
+        simp only [Term.wf] at hwf
+        simp only [Term.cost] at hf
+        exact href i pos σ f (by simp [hwf]) (by omega)
+      | startTag t =>
+        nd_pre
+        have h := ihR t (by omega) g pos σ f hwf href hn (by omega)
+        revert h
+        cases run rules inp f t pos σ with
+        | mk r σ1 => cases r <;> simp
+      | endTag t ic =>
+        nd_pre
+        have h := ihR t (by omega) g pos σ f hwf href hn (by omega)
+        revert h
+        cases run rules inp f t pos σ with
+        | mk r σ1 =>
+          cases r with
+          | ok p v => intro _; simp only []; split; · simp
+                      split <;> simp
+          | fail => simp
+          | diverge => simp
+    · intro ts hs g pos σ f hwf href hn hf
+      cases ts with
+      | nil =>
+        simp only [Term.costL] at hf
+        obtain ⟨f, rfl⟩ : ∃ f', f = f' + 1 := ⟨f - 1, by omega⟩
+        simp [runSeq]
+      | cons t ts =>
+        simp only [Term.sizeL] at hs
+        simp only [Term.costL] at hf
+        simp only [Term.wfSeq, Bool.and_eq_true] at hwf
+        obtain ⟨f, rfl⟩ : ∃ f', f = f' + 1 := ⟨f - 1, by omega⟩
+        simp only [runSeq]
+        have ha := ihR t (by omega) g pos σ f hwf.1 href hn (by omega)
+        cases hr : run rules inp f t pos σ with
+        | mk r σ1 =>
+          rw [hr] at ha
+          cases r with
+          | ok p v =>
+            have hadv := (adv_all rules inp f).1 _ _ _ _ _ _ hr
+            have hb := ihS ts (by omega) (g || t.consuming) p σ1 f hwf.2 (href.step hadv) (by have := hadv.1.1; omega) (by omega)
+            simp only []
+            revert hb
+            cases runSeq rules inp f ts p σ1 with
+            | mk lr σ2 => cases lr <;> simp
+          | fail => simp
+          | diverge => exact absurd rfl ha
+    · intro ts hs g pos σ f hwf href hn hf
+      cases ts with
+      | nil =>
+        simp only [Term.costL] at hf
+        obtain ⟨f, rfl⟩ : ∃ f', f = f' + 1 := ⟨f - 1, by omega⟩
+        simp [runChoice]
+      | cons t ts =>
+        simp only [Term.sizeL] at hs
+        simp only [Term.costL] at hf
+        simp only [Term.wfAll, Bool.and_eq_true] at hwf
+        obtain ⟨f, rfl⟩ : ∃ f', f = f' + 1 := ⟨f - 1, by omega⟩
+        simp only [runChoice]
+        have ha := ihR t (by omega) g pos σ f hwf.1 href hn (by omega)
+        cases hr : run rules inp f t pos σ with
+        | mk r σ1 =>
+          rw [hr] at ha
+          cases r with
+          | ok p v => simp
+          | fail => exact ihC ts (by omega) g pos σ1 f hwf.2 href hn (by omega)
+          | diverge => exact absurd rfl ha
+
+theorem cost_le_sumCost (k n : Nat) : ∀ (rules : List Term) (i : Nat) (b : Term), rules[i]? = some b →
+    b.cost k n ≤ sumCost k n rules := by
+  intro rules
+  induction rules with
+  | nil => intro i b h; simp at h
+  | cons r rs ih =>
+    intro i b h
+    cases i with
+    | zero => simp at h; subst h; simp only [sumCost]; omega
+    | succ i => simp at h; have := ih i b h; simp only [sumCost]; omega
+
+/-- `refFuel rules n r` suffices for every Forward wherever at most `r` characters remain -/
+theorem refs_ok (rules : List Term) (inp : Str) (n : Nat)
+    (hrules : ∀ (i : Nat) (b : Term), rules[i]? = some b → b.wf false = true) :
+    ∀ (r : Nat) (i pos : Nat) (σ : St) (f : Nat), inp.length - pos ≤ r → r ≤ n → refFuel rules n r ≤ f →
+      (run rules inp f (.ref i) pos σ).1 ≠ .diverge := by
+  intro r
+  induction r with
+  | zero =>
+    intro i pos σ f hr hrn hf
+    simp only [refFuel] at hf
+    obtain ⟨f, rfl⟩ : ∃ f', f = f' + 1 := ⟨f - 1, by omega⟩
+    simp only [run]
+    split
+    · simp
+    · cases hi : rules[i]? with
+      | none => simp
+      | some b =>
+        simp only []
+        have hc := cost_le_sumCost 0 n rules i b hi
+        refine (nd_all rules inp 0 n b.size).1 b (Nat.le_refl _) false pos σ f (hrules i b hi) ?_ (by omega) (by omega)
+        intro i' pos' σ' f' hlt _
+        simp at hlt; omega
+  | succ r ih =>
+    intro i pos σ f hr hrn hf
+    simp only [refFuel] at hf
+    obtain ⟨f, rfl⟩ : ∃ f', f = f' + 1 := ⟨f - 1, by omega⟩
+    simp only [run]
+    split
+    · simp
+    · cases hi : rules[i]? with
+      | none => simp
+      | some b =>
+        simp only []
+        have hc := cost_le_sumCost (refFuel rules n r) n rules i b hi
+        refine (nd_all rules inp (refFuel rules n r) n b.size).1 b (Nat.le_refl _) false pos σ f (hrules i b hi) ?_
+          (by omega) (by omega)
+        intro i' pos' σ' f' hlt hk
+        simp at hlt
+        exact ih i' pos' σ' f' (by omega) (by omega) hk
+
+theorem wellFormed_rules {rules : List Term} {t : Term} (h : WellFormed rules t = true) :
+    ∀ (i : Nat) (b : Term), rules[i]? = some b → b.wf false = true := by
+  intro i b hi
+  simp only [WellFormed, Bool.and_eq_true, List.all_eq_true] at h
+  exact h.2 b (List.mem_of_getElem? hi)
+
+theorem no_divergence_aux (rules : List Term) (inp : Str) (t : Term) (h : WellFormed rules t = true)
+    (n pos : Nat) (σ : St) (f : Nat) (hn : inp.length - pos ≤ n) (hf : bound rules t n ≤ f) :
+    (run rules inp f t pos σ).1 ≠ .diverge := by
+  have hr := wellFormed_rules h
+  simp only [WellFormed, Bool.and_eq_true] at h
+  refine (nd_all rules inp (refFuel rules n n) n t.size).1 t (Nat.le_refl _) true pos σ f h.1 ?_ hn hf
+  intro i pos' σ' f' hle hk
+  simp at hle
+  exact refs_ok rules inp n hr n i pos' σ' f' (by omega) (Nat.le_refl _) hk
 end IV.Peg
